@@ -1,9 +1,16 @@
 /-
 C07  Recover mode survives any single corruption or truncation  (DESIGN.md section 7, C07).
 Theorems over the executable model `EzdxfVerif.Recover` (Model/Recover.lean) of the front end of
-`ezdxf.recover.read()`: bytes → lines → tags → repair filters → compiled tags → sections → section dict.
+`ezdxf.recover.read()`: bytes → lines → tags → repair filters → compiled tags → sections → section dict,
+and (sections 9 ff.) over `EzdxfVerif.RecoverLoad` (Model/RecoverLoad.lean), the generic first loading stage behind it
+(`ExtendedTags._setup`, `DXFEntity.setup_app_data`, `XData`).  The long proofs live in Lemmas/RecoverFault.lean (grouping
+locality, version independence), Lemmas/RecoverCausal.lean (streaming causality of the tag pipeline, bytes → raw tags),
+Lemmas/RecoverLoad.lean (envelope); the counted statements are stated here.
 -/
 import EzdxfVerif.Model.Recover
+import EzdxfVerif.Lemmas.RecoverFault
+import EzdxfVerif.Lemmas.RecoverLoad
+import EzdxfVerif.Lemmas.RecoverCausal
 namespace EzdxfVerif.Props.C07
 open EzdxfVerif.Recover EzdxfVerif.Gen.RecoverTables
 
@@ -122,10 +129,27 @@ private theorem compileStep_fixed (enc : Enc) (st : CP) (t : RawTag) (e : PyErr)
 private theorem compileGo_fixed (enc : Enc) (tags : List RawTag) :
     ∀ (st : CP) (e : PyErr), compileGo .fixed enc st tags = .error e → e = .dxfStructureError := by
   induction tags with
-  | nil => intro st e h; simp [compileGo] at h
+  | nil =>
+    intro st e h
+    cases st with
+    | none => simp [compileGo] at h
+    | x a => simp [compileGo] at h
+    | xy a b =>
+      simp only [compileGo] at h
+      split at h
+      · simp at h
+      · simp at h; exact h.symm
   | cons t r ih =>
     intro st e h
-    unfold compileGo at h
+    have hgo : compileGo .fixed enc st (t :: r) =
+        (match compileStep .fixed enc st t with
+         | .error e => .error e
+         | .ok (out, st') =>
+           match compileGo .fixed enc st' r with
+           | .error e => .error e
+           | .ok ts => .ok (out ++ ts)) := by
+      cases st <;> rfl
+    rw [hgo] at h
     split at h
     · next e' he => simp at h; subst h; exact compileStep_fixed enc st t _ he
     · split at h
@@ -777,6 +801,54 @@ theorem entities_survive_truncation (cfg : Cfg) (a body suf : List CTag) (k : Na
       checkEntities r12 (groupTags (tSection :: tEntName :: body)) = .ok gs :=
   sections_prefix_stable cfg a body (suf.take k) d ha (fun x hx => hs x (List.mem_of_mem_take hx)) hb h
 
+/-- `sections_prefix_stable` with the R12 flag made explicit: it is `dxfversion <= "AC1009"` for the version that
+    `load_section_dict` detected -/
+private theorem sections_prefix_stable_v (cfg : Cfg) (a body t : List CTag) (d : SectionDict)
+    (ha : NoEnt a) (ht : NoEnt t) (hb : ∀ x ∈ body, isStruct x = false)
+    (h : frontTags cfg (a ++ tSection :: tEntName :: body ++ tEndsec :: t) = .ok d) :
+    ∃ v d0 gs, loadSectionDict cfg (rebuildSections (a ++ tSection :: tEntName :: body ++ tEndsec :: t)) = .ok (v, d0) ∧
+      entitiesOf d = some gs ∧
+      checkEntities (strLe v sAc1009) (groupTags (tSection :: tEntName :: body)) = .ok gs := by
+  obtain ⟨before, after, orph, hrs, hbf, haf, horph⟩ := rebuild_sections_complete_section a body t ha ht hb
+  unfold frontTags at h
+  split at h
+  · simp at h
+  · next version d0 hload0 =>
+    refine ⟨version, d0, ?_⟩
+    have hload := hload0
+    rw [hrs] at hload
+    unfold loadSectionDict at hload
+    split at hload
+    · simp at hload
+    · next raw hraw =>
+      simp only [Except.ok.injEq] at hload
+      have hent : entRaw raw = some (tSection :: tEntName :: body) := by
+        have hx : before ++ (tSection :: tEntName :: body) :: after ++ [orph]
+            = (before ++ (tSection :: tEntName :: body) :: after) ++ [orph] := by simp
+        rw [hx] at hraw
+        rcases splitOrphans_concat (before ++ (tSection :: tEntName :: body) :: after) orph with hs | hs
+        · rw [hs] at hraw
+          exact collect_entities cfg before after body hbf haf raw hraw
+        · rw [hs] at hraw
+          have hx2 : (before ++ (tSection :: tEntName :: body) :: after) ++ [orph]
+              = before ++ (tSection :: tEntName :: body) :: (after ++ [orph]) := by simp
+          rw [hx2] at hraw
+          refine collect_entities cfg before (after ++ [orph]) body hbf ?_ raw hraw
+          intro sec hsec
+          rcases List.mem_append.1 hsec with h1 | h1
+          · exact haf sec h1
+          · simp only [List.mem_singleton] at h1; rw [h1]; exact horph
+      have hd0 : entitiesOf d0 = some (groupTags (tSection :: tEntName :: body)) := by
+        have : d0 = (finishDict raw (splitOrphans (before ++ (tSection :: tEntName :: body) :: after ++ [orph])).2).2 := by
+          rw [hload]
+        rw [this, finishDict_entities, hent]; rfl
+      simp only at h
+      obtain ⟨gs, g1, g2⟩ := checkAll_entities (strLe version sAc1009) _ _ h (groupTags (tSection :: tEntName :: body)) (by
+        split
+        · rw [mapSection_entities sTables (by decide), hd0]
+        · rw [mapSection_entities sObjects (by decide), mapSection_entities sTables (by decide), hd0])
+      exact ⟨gs, hload0, g1, g2⟩
+
 /-! ### entity types and count -/
 
 /-- a group produced by `group_tags` starts with its split tag (code 0) -/
@@ -1181,6 +1253,478 @@ example : splitLines [48, 10, 69, 79, 70, 13, 10, 55] = [[48, 10], [69, 79, 70, 
 example : (bytesLoader (splitLines [32, 32, 48, 13, 10, 69, 79, 70, 13, 10, 55])).tags = [⟨0, sEof⟩] := by rfl
 
 
+/-! ## 8. A single fault inside one entity: all other entities are loaded with identical tags -/
+
+open EzdxfVerif.Lemmas.RecoverFault in
+/-- an entity as it stands in a written ENTITIES section: a (0, type) tag that is not SECTION / ENDSEC / EOF followed
+    by tags with other group codes -/
+def WFEntity (g : List CTag) : Prop := WFGroup g ∧ ∀ x ∈ g, isStruct x = false
+
+/-- tags that may trail the section head (the remains of a first entity that lost its (0, type) tag) -/
+def Junk (j : List CTag) : Prop := ∀ x ∈ j, x.code ≠ 0
+
+private theorem junk_nonstruct (j : List CTag) (hj : Junk j) : ∀ x ∈ j, isStruct x = false := by
+  intro x hx
+  have := hj x hx
+  unfold isStruct
+  have : (x.code == 0) = false := by simpa using this
+  simp [this]
+
+private theorem body_nonstruct (j : List CTag) (es : List (List CTag)) (hj : Junk j) (hes : ∀ g ∈ es, WFEntity g) :
+    ∀ x ∈ j ++ es.flatten, isStruct x = false := by
+  intro x hx
+  rcases List.mem_append.1 hx with h | h
+  · exact junk_nonstruct j hj x h
+  · obtain ⟨g, hg, hxg⟩ := List.mem_flatten.1 h
+    exact (hes g hg).2 x hxg
+
+private theorem isStruct_eq (x : CTag) : EzdxfVerif.Lemmas.RecoverFault.isStruct x = isStruct x := rfl
+
+private theorem checkEntity_head (r12 : Bool) (j : List CTag) :
+    checkEntity r12 (tSection :: tEntName :: j) = .ok (tSection :: tEntName :: j) := by
+  have : excludeStructureCheck.contains (entityType (tSection :: tEntName :: j)) = true := by
+    show excludeStructureCheck.contains sSection = true
+    decide
+  unfold checkEntity
+  rw [if_pos this]
+
+/-- **one run**: the ENTITIES section of the file is the concatenation of the entities `es` (after optional junk
+    behind the section head).  If the front end returns, the ENTITIES entry of the section dict holds the section head
+    and, entity by entity and in order, `check_entities` of exactly those groups: nothing moves between entities. -/
+theorem entities_grouped (cfg : Cfg) (a t j : List CTag) (es : List (List CTag)) (d : SectionDict)
+    (ha : NoEnt a) (ht : NoEnt t) (hj : Junk j) (hes : ∀ g ∈ es, WFEntity g)
+    (h : frontTags cfg (a ++ tSection :: tEntName :: (j ++ es.flatten) ++ tEndsec :: t) = .ok d) :
+    ∃ r12 gs, entitiesOf d = some ((tSection :: tEntName :: j) :: gs) ∧ checkEntities r12 es = .ok gs := by
+  obtain ⟨r12, gs, h1, h2⟩ := sections_prefix_stable cfg a (j ++ es.flatten) t d ha ht (body_nonstruct j es hj hes) h
+  rw [EzdxfVerif.Lemmas.RecoverFault.groupTags_section tSection tEntName rfl (by decide) j hj es
+    (fun g hg => (hes g hg).1)] at h2
+  unfold checkEntities at h2
+  rw [checkEntity_head] at h2
+  simp only at h2
+  split at h2
+  · simp at h2
+  · next gs' hgs' =>
+    simp only [Except.ok.injEq] at h2
+    exact ⟨r12, gs', by rw [h1, ← h2], hgs'⟩
+
+/-- **Single fault, two runs.**  Two files that differ only in ONE region of the ENTITIES section: the entities `pre`
+    in front of it and `post` behind it are the same, the region itself holds the entity groups `m1` in the undamaged
+    file and `m2` in the damaged one (any lists of well-formed groups, see the instances below; `j1` / `j2` = junk
+    behind the section head).  If the front end returns for both, then both are loaded in the same R12 mode and
+    the ENTITIES entries are  head :: pre' ++ m1' ++ post'  and  head :: pre' ++ m2' ++ post'  with THE SAME
+    `pre'` = check_entities(pre) and `post'` = check_entities(post): every entity outside the damaged region is loaded
+    with identical tags, in the same order, and nothing of the damaged region leaks into them. -/
+theorem entities_survive_single_fault (cfg : Cfg) (a t j1 j2 : List CTag) (pre post m1 m2 : List (List CTag))
+    (d1 d2 : SectionDict) (ha : NoEnt a) (ht : NoEnt t) (hj1 : Junk j1) (hj2 : Junk j2)
+    (hpre : ∀ g ∈ pre, WFEntity g) (hpost : ∀ g ∈ post, WFEntity g)
+    (hm1 : ∀ g ∈ m1, WFEntity g) (hm2 : ∀ g ∈ m2, WFEntity g)
+    (h1 : frontTags cfg (a ++ tSection :: tEntName :: (j1 ++ (pre ++ m1 ++ post).flatten) ++ tEndsec :: t) = .ok d1)
+    (h2 : frontTags cfg (a ++ tSection :: tEntName :: (j2 ++ (pre ++ m2 ++ post).flatten) ++ tEndsec :: t) = .ok d2) :
+    ∃ r12 gpre gpost g1 g2,
+      checkEntities r12 pre = .ok gpre ∧ checkEntities r12 post = .ok gpost ∧
+      checkEntities r12 m1 = .ok g1 ∧ checkEntities r12 m2 = .ok g2 ∧
+      entitiesOf d1 = some ((tSection :: tEntName :: j1) :: (gpre ++ g1 ++ gpost)) ∧
+      entitiesOf d2 = some ((tSection :: tEntName :: j2) :: (gpre ++ g2 ++ gpost)) := by
+  have hall : ∀ m : List (List CTag), (∀ g ∈ m, WFEntity g) → ∀ g ∈ pre ++ m ++ post, WFEntity g := by
+    intro m hm g hg
+    rcases List.mem_append.1 hg with h | h
+    · rcases List.mem_append.1 h with h' | h'
+      · exact hpre g h'
+      · exact hm g h'
+    · exact hpost g h
+  have hb1 := body_nonstruct j1 _ hj1 (hall m1 hm1)
+  have hb2 := body_nonstruct j2 _ hj2 (hall m2 hm2)
+  obtain ⟨v1, e1, gs1, l1, o1, c1⟩ := sections_prefix_stable_v cfg a _ t d1 ha ht hb1 h1
+  obtain ⟨v2, e2, gs2, l2, o2, c2⟩ := sections_prefix_stable_v cfg a _ t d2 ha ht hb2 h2
+  have hv : v1 = v2 := EzdxfVerif.Lemmas.RecoverFault.version_independent cfg a t _ _ hb1 hb2 v1 v2 e1 e2 l1 l2
+  subst hv
+  rw [EzdxfVerif.Lemmas.RecoverFault.groupTags_section tSection tEntName rfl (by decide) j1 hj1 _
+    (fun g hg => (hall m1 hm1 g hg).1)] at c1
+  rw [EzdxfVerif.Lemmas.RecoverFault.groupTags_section tSection tEntName rfl (by decide) j2 hj2 _
+    (fun g hg => (hall m2 hm2 g hg).1)] at c2
+  unfold checkEntities at c1 c2
+  rw [checkEntity_head] at c1 c2
+  simp only at c1 c2
+  split at c1
+  · simp at c1
+  · next r1 hr1 =>
+    split at c2
+    · simp at c2
+    · next r2 hr2 =>
+      simp only [Except.ok.injEq] at c1 c2
+      obtain ⟨x1, gpost1, ex1, hx1, hpost1⟩ := EzdxfVerif.Lemmas.RecoverFault.checkEntities_append _ _ _ _ hr1
+      obtain ⟨gpre1, g1, ey1, hpre1, hg1⟩ := EzdxfVerif.Lemmas.RecoverFault.checkEntities_append _ _ _ _ hx1
+      obtain ⟨x2, gpost2, ex2, hx2, hpost2⟩ := EzdxfVerif.Lemmas.RecoverFault.checkEntities_append _ _ _ _ hr2
+      obtain ⟨gpre2, g2, ey2, hpre2, hg2⟩ := EzdxfVerif.Lemmas.RecoverFault.checkEntities_append _ _ _ _ hx2
+      have epre : gpre1 = gpre2 := by
+        have := hpre1.symm.trans hpre2
+        simpa using this
+      have epost : gpost1 = gpost2 := by
+        have := hpost1.symm.trans hpost2
+        simpa using this
+      subst epre epost
+      refine ⟨strLe v1 sAc1009, gpre1, gpost1, g1, g2, hpre1, hpost1, hg1, hg2, ?_, ?_⟩
+      · rw [o1, ← c1, ex1, ey1]
+      · rw [o2, ← c2, ex2, ey2]
+
+/-- the number of entities outside the damaged region is kept as well -/
+theorem single_fault_counts (r12 : Bool) (pre gpre : List (List CTag)) (h : checkEntities r12 pre = .ok gpre) :
+    gpre.length = pre.length := EzdxfVerif.Lemmas.RecoverFault.checkEntities_length r12 pre gpre h
+
+/-! The fault classes of the catalogue as instances of `entities_survive_single_fault` (tag level):
+  * the value or the (non-zero) group code of a tag of entity `e` is replaced by garbage, a tag of `e` is dropped,
+    duplicated, swapped with its neighbour inside `e`, a tag with a non-zero code is inserted:
+    `m1 = [e]`, `m2 = [e']` for any well-formed `e'`;
+  * the (0, type) tag of entity `h :: tl` is lost (dropped, its code replaced by a non-zero one): the rest merges into
+    the entity `p` in front of it: `m1 = [p, h :: tl]`, `m2 = [p ++ tl]` resp. `[p ++ x :: tl]`; for the first entity of
+    the section `m1 = [h :: tl]`, `m2 = []`, `j2 = tl`;
+  * a (0, ..) tag appears inside entity `h :: (tl1 ++ tl2)` (a code replaced by 0, a duplicated / swapped-in (0, ..)
+    tag): `m1 = [h :: (tl1 ++ tl2)]`, `m2 = [h :: tl1, z :: tl2]`.
+  The identities below show that these `m2` really are the damaged tag streams. -/
+example (pre post : List (List CTag)) (p tl : List CTag) (h : CTag) :
+    (pre ++ [p, h :: tl] ++ post).flatten = (pre.flatten ++ p) ++ h :: (tl ++ post.flatten) ∧
+    (pre ++ [p ++ tl] ++ post).flatten = (pre.flatten ++ p) ++ (tl ++ post.flatten) := by
+  constructor <;> simp
+example (pre post : List (List CTag)) (tl1 tl2 : List CTag) (h z : CTag) :
+    (pre ++ [h :: (tl1 ++ tl2)] ++ post).flatten = (pre.flatten ++ h :: tl1) ++ (tl2 ++ post.flatten) ∧
+    (pre ++ [h :: tl1, z :: tl2] ++ post).flatten = (pre.flatten ++ h :: tl1) ++ z :: (tl2 ++ post.flatten) := by
+  constructor <;> simp
+example (post : List (List CTag)) (tl : List CTag) (h : CTag) :
+    ([] ++ (([] : List (List CTag)) ++ [h :: tl] ++ post).flatten) = h :: (tl ++ post.flatten) ∧
+    (tl ++ (([] : List (List CTag)) ++ [] ++ post).flatten) = tl ++ post.flatten := by
+  constructor <;> simp
+
+/-- non-vacuity: LINE / CIRCLE / POINT with a garbage value inside the CIRCLE and with the CIRCLE's (0, ..) tag lost -/
+def exLine : List CTag := [⟨0, .str sLine⟩, ⟨5, .str [49]⟩, ⟨10, .vtx⟩]
+def exCircle : List CTag := [⟨0, .str [67, 73, 82, 67, 76, 69]⟩, ⟨40, .num⟩]
+def exCircleBad : List CTag := [⟨0, .str [67, 73, 82, 67, 76, 69]⟩, ⟨1, .str [120, 121, 122]⟩]
+def exPoint : List CTag := [⟨0, .str [80, 79, 73, 78, 84]⟩, ⟨10, .vtx⟩]
+
+example : (frontTags .fixed (exA ++ tSection :: tEntName :: ([] ++ ([exLine] ++ [exCircle] ++ [exPoint]).flatten) ++ tEndsec :: exT)).toOption.bind entitiesOf
+    = some [[tSection, tEntName], exLine, exCircle, exPoint] := by rfl
+example : (frontTags .fixed (exA ++ tSection :: tEntName :: ([] ++ ([exLine] ++ [exCircleBad] ++ [exPoint]).flatten) ++ tEndsec :: exT)).toOption.bind entitiesOf
+    = some [[tSection, tEntName], exLine, exCircleBad, exPoint] := by rfl
+example : (frontTags .fixed (exA ++ tSection :: tEntName :: ([] ++ ([] ++ [exLine ++ exCircle.tail] ++ [exPoint]).flatten) ++ tEndsec :: exT)).toOption.bind entitiesOf
+    = some [[tSection, tEntName], exLine ++ exCircle.tail, exPoint] := by rfl
+example : WFEntity exLine ∧ WFEntity exCircleBad ∧ WFEntity (exLine ++ exCircle.tail) := by
+  refine ⟨⟨⟨_, _, rfl, rfl, by decide⟩, by decide⟩, ⟨⟨_, _, rfl, rfl, by decide⟩, by decide⟩,
+    ⟨⟨_, _, rfl, rfl, by decide⟩, by decide⟩⟩
+
+/-! ## 9. Behind the front end: the generic envelope of the first loading stage (Model/RecoverLoad.lean) -/
+
+section load
+open EzdxfVerif.RecoverLoad
+
+/-- `ExtendedTags._setup` on ANY tag list: the "Unexpected tag ... at end of entity" branch is unreachable; the only
+    exception is the DXFStructureError for an application-data group that is not closed -/
+theorem setup_only_missing_app_close (e : List CTag) (x : SetupErr) (h : setup e = .error x) : x = .missingAppClose :=
+  EzdxfVerif.Lemmas.RecoverLoad.setupGo_error e St.init x h
+
+/-- ... and it is raised exactly when the tag list ends inside an application-data group of the base class -/
+theorem setup_error_iff (e : List CTag) :
+    (∃ x, setup e = .error x) ↔ ∃ st, EzdxfVerif.Lemmas.RecoverLoad.endPhase St.init e = .app st :=
+  EzdxfVerif.Lemmas.RecoverLoad.setupGo_error_iff e St.init
+
+/-- `ExtendedTags` loses and reorders nothing: whenever `_setup` does not raise, iterating the result
+    (`ExtendedTags.__iter__`: base class with the app-data groups at their placeholders, subclasses, embedded objects,
+    XDATA) gives back exactly the tag list it was built from - for EVERY (damaged) tag list -/
+theorem setup_iter (e : List CTag) (x : XT) (h : setup e = .ok x) : x.iter = e :=
+  EzdxfVerif.Lemmas.RecoverLoad.setup_iter e x h
+
+/-- totality of the generic first loading stage of one entity (ExtendedTags + setup_app_data + XData): it returns an
+    envelope or raises DXFStructureError, for EVERY tag list -/
+theorem load_envelope_total (e : List CTag) :
+    (∃ v, loadEnvelope e = .ok v) ∨ loadEnvelope e = .error .dxfStructureError := by
+  cases h : loadEnvelope e with
+  | ok v => exact Or.inl ⟨v, rfl⟩
+  | error x => right; rw [EzdxfVerif.Lemmas.RecoverLoad.loadEnvelope_err e x h]
+
+/-- the same for the whole section dict in the order of `load_and_bind_dxf_content` -/
+theorem load_stage_total (d : SectionDict) :
+    (∃ vs, loadStage d = .ok vs) ∨ loadStage d = .error .dxfStructureError := by
+  unfold loadStage
+  cases h : loadAll (loadSequence d) with
+  | ok v => exact Or.inl ⟨v, rfl⟩
+  | error x => right; rw [EzdxfVerif.Lemmas.RecoverLoad.loadAll_err _ x h]
+
+/-- what `Recover.check_entities` passes (every entity type but XRECORD and the unchecked structure types) never makes
+    `ExtendedTags` raise: for those entities the structure validator of the front end subsumes the loader's check -/
+theorem checked_entity_loads (r12 : Bool) (e e' : List CTag) (h : checkEntity r12 e = .ok e')
+    (hex : excludeStructureCheck.contains (entityType e) = false) (hx : (entityType e == sXrecord) = false) :
+    ∃ x, setup e' = .ok x :=
+  EzdxfVerif.Lemmas.RecoverLoad.checked_group_setup_ok r12 e e' h hex hx
+
+/-- the exclusion of XRECORD is necessary: this XRECORD passes `check_entities` and `ExtendedTags` raises
+    DXFStructureError for it (recover.read() then raises DXFStructureError, which the property allows) -/
+def exXrecord : List CTag := [⟨0, .str sXrecord⟩, ⟨5, .str [49]⟩, ⟨102, .str [123, 65]⟩, ⟨330, .str [49]⟩]
+example : checkEntity false exXrecord = .ok exXrecord ∧ setup exXrecord = .error .missingAppClose := by
+  constructor <;> rfl
+example : ∃ x, setup exLine = .ok x := ⟨_, rfl⟩
+
+/-- the reactor handles an entity holds after loading are valid handles, so `Reactors.get()` (sorted by
+    `int(x, 16)`, used by the export) cannot raise.  Stated for the tree under test: `treeFixReactors` is probed from
+    the source, reverting the fix re-opens this theorem. -/
+theorem reactors_sortable (e : List CTag) (v : Envelope) (h : loadEnvelope e = .ok v) (hs : List Str)
+    (hr : v.reactors = some hs) : ∀ x ∈ hs, (pyIntHex x).isSome = true := by
+  unfold loadEnvelope at h
+  split at h
+  · simp at h
+  · next xt _ =>
+    split at h
+    · simp at h
+    · next acc hacc =>
+      simp only [Except.ok.injEq] at h
+      rw [← h] at hr
+      exact EzdxfVerif.Lemmas.RecoverLoad.setupAppData_reactors (by decide) xt.appdata ⟨none, none, []⟩ acc
+        (by intro hs' h'; simp at h') hacc hs hr
+
+example : (loadEnvelope [⟨0, .str sLine⟩, ⟨102, .str sAcadReactors⟩, ⟨330, .str [120, 121, 122]⟩, ⟨330, .str [49, 70]⟩,
+    ⟨102, .str [125]⟩]).toOption.bind (·.reactors) = some [[49, 70]] := by rfl
+
+/-- the XDATA an entity holds after loading (fast path or `XData.safe_init`) consists of valid XDATA group codes -/
+theorem xdata_codes_valid (e : List CTag) (v : Envelope) (h : loadEnvelope e = .ok v) :
+    ∀ g ∈ v.xdata, g.2.all (fun t => isValidXdataCode t.code) = true := by
+  unfold loadEnvelope at h
+  split at h
+  · simp at h
+  · next xt _ =>
+    split at h
+    · simp at h
+    · simp only [Except.ok.injEq] at h
+      rw [← h]
+      exact EzdxfVerif.Lemmas.RecoverLoad.xdataInit_ok xt.xdata
+
+end load
+
+/-! ## 10. The crashed writer at BYTE level: through the repair filters and `byte_tag_compiler` -/
+
+/-- the tag pipeline of `safe_tag_loader` is causal: for every continuation `Q` of the raw tags `P` (and for both
+    end-of-stream modes) the compiled tags start with what was emitted when `P` had been consumed -/
+theorem pipeline_causal (cfg : Cfg) (enc : Enc) (P Q : List RawTag) (err : Option PyErr) (T : List CTag)
+    (h : compile cfg enc (repairTags ⟨P ++ Q, err⟩) = .ok T) :
+    ∃ out rest, EzdxfVerif.Lemmas.RecoverCausal.emitted cfg enc P = .ok out ∧ T = out ++ rest :=
+  EzdxfVerif.Lemmas.RecoverCausal.pipeline_causal cfg enc P Q err T h
+
+/-- **The crashed writer, byte level.**  The file `bs` is cut after ANY number `n` of bytes.  `P` = the raw tags that
+    the cut left intact (`loader_truncation`: a prefix of the tags of the complete file; the cut file delivers `P` plus
+    at most one damaged tag).  If the encoding is decided within `P` ($DWGCODEPAGE and $ACADVER are in the intact part)
+    and the compiled tags emitted for `P` contain a completely written  SECTION (2,ENTITIES) body ENDSEC  (no other
+    (2, ENTITIES) tag in the result), then whenever `recover` returns a section dict for the cut file, its ENTITIES
+    entry is exactly the entity groups of `body` - the statement of `sections_prefix_stable` lifted through
+    `tag_reorder_layer`, `filter_invalid_point_codes`, `filter_invalid_handles`, `byte_tag_compiler`, `bytes_loader`
+    and the line splitting. -/
+theorem crashed_writer_bytes (cfg : Cfg) (bs : Bytes) (n : Nat) (d : SectionDict)
+    (h : recoverFront cfg (bs.take n) = .ok d) :
+    ∃ P extra, (bytesLoader (splitLines (bs.take n))).tags = P ++ extra ∧ extra.length ≤ 1 ∧
+      P <+: (bytesLoader (splitLines bs)).tags ∧
+      ∀ (enc : Enc) (a body t0 : List CTag),
+        detectGo cfg (some .dxfStructureError) none none 0 P = .ok enc →
+        EzdxfVerif.Lemmas.RecoverCausal.emitted cfg enc P = .ok (a ++ tSection :: tEntName :: body ++ tEndsec :: t0) →
+        NoEnt a → (∀ x ∈ body, isStruct x = false) →
+        (∀ T' rest, loadTags cfg (bs.take n) = .ok T' → T' = a ++ tSection :: tEntName :: body ++ tEndsec :: rest → NoEnt rest) →
+        ∃ r12 gs, entitiesOf d = some gs ∧
+          checkEntities r12 (groupTags (tSection :: tEntName :: body)) = .ok gs := by
+  obtain ⟨P, extra, hP, hlen, hpre⟩ := loader_truncation bs n
+  refine ⟨P, extra, hP, hlen, hpre, ?_⟩
+  intro enc a body t0 hdec hemit ha hb hno
+  unfold recoverFront at h
+  cases hT : loadTags cfg (bs.take n) with
+  | error e => rw [hT] at h; simp at h
+  | ok T' =>
+    rw [hT] at h
+    simp only at h
+    have hT0 := hT
+    unfold loadTags at hT
+    simp only at hT
+    generalize hs : bytesLoader (splitLines (bs.take n)) = s at hT hP
+    obtain ⟨tags, err⟩ := s
+    simp only at hP
+    subst hP
+    have hdet : detectEncoding cfg ⟨P ++ extra, err⟩ = .ok enc := by
+      unfold detectEncoding
+      exact EzdxfVerif.Lemmas.RecoverCausal.detectGo_causal cfg P extra err enc none none 0 hdec
+    rw [hdet] at hT
+    simp only at hT
+    cases hc : compile cfg enc (repairTags ⟨P ++ extra, err⟩) with
+    | error e => rw [hc] at hT; simp at hT
+    | ok T1 =>
+      rw [hc] at hT
+      simp only at hT
+      have hT1 : T1 = T' := by
+        cases err with
+        | none => simpa using hT
+        | some e => simp at hT
+      subst hT1
+      obtain ⟨out, rest, ho, hsplit⟩ := EzdxfVerif.Lemmas.RecoverCausal.pipeline_causal cfg enc P extra err T1 hc
+      rw [hemit] at ho
+      simp only [Except.ok.injEq] at ho
+      have hshape : T1 = a ++ tSection :: tEntName :: body ++ tEndsec :: (t0 ++ rest) := by
+        rw [hsplit, ← ho]; simp
+      have hnoent := hno T1 (t0 ++ rest) hT0 hshape
+      rw [hshape] at h
+      exact sections_prefix_stable cfg a body (t0 ++ rest) d ha hnoent hb h
+
+
+/-- the observable of the property at byte level: the DXF types (and the number) of the entities the recovered section
+    dict holds are those of the completely written ENTITIES section - independent of the R12 mode -/
+theorem crashed_writer_bytes_types (cfg : Cfg) (bs : Bytes) (n : Nat) (d : SectionDict)
+    (h : recoverFront cfg (bs.take n) = .ok d) :
+    ∃ P extra, (bytesLoader (splitLines (bs.take n))).tags = P ++ extra ∧ extra.length ≤ 1 ∧
+      P <+: (bytesLoader (splitLines bs)).tags ∧
+      ∀ (enc : Enc) (a body t0 : List CTag),
+        detectGo cfg (some .dxfStructureError) none none 0 P = .ok enc →
+        EzdxfVerif.Lemmas.RecoverCausal.emitted cfg enc P = .ok (a ++ tSection :: tEntName :: body ++ tEndsec :: t0) →
+        NoEnt a → (∀ x ∈ body, isStruct x = false) →
+        (∀ T' rest, loadTags cfg (bs.take n) = .ok T' → T' = a ++ tSection :: tEntName :: body ++ tEndsec :: rest → NoEnt rest) →
+        ∃ gs, entitiesOf d = some gs ∧
+          gs.map entityType = (groupTags (tSection :: tEntName :: body)).map entityType := by
+  obtain ⟨P, extra, h1, h2, h3, h4⟩ := crashed_writer_bytes cfg bs n d h
+  refine ⟨P, extra, h1, h2, h3, ?_⟩
+  intro enc a body t0 hd he ha hb hno
+  obtain ⟨r12, gs, g1, g2⟩ := h4 enc a body t0 hd he ha hb hno
+  exact ⟨gs, g1, checkEntities_types r12 _ gs (groupGo_heads _ none (by intro g hg; cases hg)) g2⟩
+
+/-- non-vacuity: a file with HEADER ($ACADVER AC1015, $DWGCODEPAGE), an ENTITIES section with one LINE (legacy coordinate
+    order, so `tag_reorder_layer` really works) and an OBJECTS section, cut in the middle of the OBJECTS section (inside a
+    value line): the front end returns, the intact raw tags decide the encoding and compile to a stream with the complete
+    ENTITIES section, whose single LINE is what the section dict holds -/
+def exFile : Bytes :=
+  ("0\nSECTION\n2\nHEADER\n9\n$ACADVER\n1\nAC1015\n9\n$DWGCODEPAGE\n3\nANSI_1252\n0\nENDSEC\n" ++
+   "0\nSECTION\n2\nENTITIES\n0\nLINE\n8\n0\n10\n1.0\n11\n3.0\n20\n2.0\n21\n4.0\n0\nENDSEC\n" ++
+   "0\nSECTION\n2\nOBJECTS\n0\nDICTIONARY\n5\nC\n0\nENDSEC\n0\nEOF\n").toUTF8.toList.map (·.toNat)
+def exCut : Nat := exFile.length - 18
+def exIntact : List RawTag := (bytesLoader (splitLines (exFile.take exCut))).tags.dropLast
+def exLineTags : List CTag := [⟨0, .str sLine⟩, ⟨8, .str [48]⟩, ⟨10, .vtx⟩, ⟨11, .vtx⟩]
+#guard (recoverFront .fixed (exFile.take exCut)).toOption.isSome
+#guard (detectGo .fixed (some .dxfStructureError) none none 0 exIntact).toOption == some Enc.cp1252
+#guard (EzdxfVerif.Lemmas.RecoverCausal.emitted .fixed .cp1252 exIntact).toOption ==
+  some ([tSection, ⟨2, .str sHeader⟩, ⟨9, .str sVAcadver⟩, ⟨1, .str [65, 67, 49, 48, 49, 53]⟩, ⟨9, .str sVDwgcodepage⟩,
+         ⟨3, .str [65, 78, 83, 73, 95, 49, 50, 53, 50]⟩, tEndsec]
+        ++ tSection :: tEntName :: exLineTags ++ tEndsec :: [tSection, ⟨2, .str sObjects⟩])
+#guard ((recoverFront .fixed (exFile.take exCut)).toOption.bind entitiesOf) == some [[tSection, tEntName], exLineTags]
+#guard ((recoverFront .fixed exFile).toOption.bind entitiesOf) == some [[tSection, tEntName], exLineTags]
+
+/-! ## 11. A single fault at RAW-TAG level (what `bytes_loader` delivers): the compiled stream changes only in a window -/
+
+open EzdxfVerif.Lemmas.RecoverCausal in
+/-- **Single fault, raw tags.**  Two raw tag streams  A ++ E1 ++ z :: B  and  A ++ E2 ++ z :: B  that differ only in the
+    region E1 / E2 (ANY raw tags: garbage values and codes, dropped / duplicated / swapped / inserted lines, a lost or an
+    extra (0, ..) tag), `z` = the first (0, ..) tag behind the region.  If the repair filters + `byte_tag_compiler` return
+    for both, the compiled streams agree on the prefix `X` = what was emitted for `A` and on the suffix `S` = the compiled
+    tags of `z :: B` taken as a stream of its own.  The one way a damaged region can reach beyond `z` is the
+    `expected_code` that `filter_invalid_point_codes` keeps across (0, ..) tags; the hypotheses say that no tag between
+    `z` and the next point-code tag carries that stale code (`staleExp`, a y/z coordinate code) or the code -1
+    (lone y/z coordinate tags do not occur in a written file).  `stale_code_matters` shows the hypothesis is needed. -/
+theorem single_fault_window (cfg : Cfg) (enc : Enc) (A E1 E2 B : List RawTag) (z : RawTag) (hz : z.code = 0)
+    (err : Option PyErr) (T1 T2 : List CTag)
+    (hs1 : ∀ t ∈ headPart (tagReorder none (z :: B)).tail, t.code ≠ staleExp (A ++ E1) ∧ t.code ≠ -1)
+    (hs2 : ∀ t ∈ headPart (tagReorder none (z :: B)).tail, t.code ≠ staleExp (A ++ E2) ∧ t.code ≠ -1)
+    (h1 : compile cfg enc (repairTags ⟨A ++ E1 ++ z :: B, err⟩) = .ok T1)
+    (h2 : compile cfg enc (repairTags ⟨A ++ E2 ++ z :: B, err⟩) = .ok T2) :
+    ∃ X S R1 R2 M1 M2, emitted cfg enc A = .ok X ∧ compile cfg enc (repairTags ⟨z :: B, err⟩) = .ok S ∧
+      T1 = X ++ R1 ∧ T2 = X ++ R2 ∧ T1 = M1 ++ S ∧ T2 = M2 ++ S := by
+  obtain ⟨M1, S1, e1, c1⟩ := pipeline_split cfg enc (A ++ E1) B z hz err T1 hs1 h1
+  obtain ⟨M2, S2, e2, c2⟩ := pipeline_split cfg enc (A ++ E2) B z hz err T2 hs2 h2
+  have hS : S1 = S2 := by
+    have := c1.symm.trans c2
+    simpa using this
+  subst hS
+  rw [List.append_assoc] at h1 h2
+  obtain ⟨X1, R1, x1, r1⟩ := EzdxfVerif.Lemmas.RecoverCausal.pipeline_causal cfg enc A (E1 ++ z :: B) err T1 h1
+  obtain ⟨X2, R2, x2, r2⟩ := EzdxfVerif.Lemmas.RecoverCausal.pipeline_causal cfg enc A (E2 ++ z :: B) err T2 h2
+  have hX : X1 = X2 := by
+    have := x1.symm.trans x2
+    simpa using this
+  subst hX
+  exact ⟨X1, S1, R1, R2, M1, M2, x1, c1, r1, r2, e1, e2⟩
+
+/-- everything in front of the damaged region is untouched without any hypothesis (causality alone) -/
+theorem single_fault_prefix (cfg : Cfg) (enc : Enc) (A Q1 Q2 : List RawTag) (err1 err2 : Option PyErr) (T1 T2 : List CTag)
+    (h1 : compile cfg enc (repairTags ⟨A ++ Q1, err1⟩) = .ok T1)
+    (h2 : compile cfg enc (repairTags ⟨A ++ Q2, err2⟩) = .ok T2) :
+    ∃ X R1 R2, EzdxfVerif.Lemmas.RecoverCausal.emitted cfg enc A = .ok X ∧ T1 = X ++ R1 ∧ T2 = X ++ R2 := by
+  obtain ⟨X1, R1, x1, r1⟩ := EzdxfVerif.Lemmas.RecoverCausal.pipeline_causal cfg enc A Q1 err1 T1 h1
+  obtain ⟨X2, R2, x2, r2⟩ := EzdxfVerif.Lemmas.RecoverCausal.pipeline_causal cfg enc A Q2 err2 T2 h2
+  have hX : X1 = X2 := by
+    have := x1.symm.trans x2
+    simpa using this
+  subst hX
+  exact ⟨X1, R1, R2, x1, r1, r2⟩
+
+/-- the stale-code hypothesis is necessary: a POINT that lost its y coordinate leaves expected_code = 20 behind; lone
+    (20, ..) (30, ..) tags of the NEXT entity, which are dropped in a stream of their own, are then kept -/
+def exStaleP : List RawTag := [⟨0, [80, 79, 73, 78, 84]⟩, ⟨10, [49]⟩]
+def exStaleZ : RawTag := ⟨0, [67, 73, 82, 67, 76, 69]⟩
+def exStaleB : List RawTag := [⟨20, [53]⟩, ⟨30, [54]⟩, ⟨40, [49]⟩]
+theorem stale_code_matters :
+    EzdxfVerif.Lemmas.RecoverCausal.staleExp exStaleP = 20 ∧
+    (compile .fixed .cp1252 (repairTags ⟨exStaleZ :: exStaleB, none⟩)).toOption
+      = some [⟨0, .str [67, 73, 82, 67, 76, 69]⟩, ⟨40, .num⟩] ∧
+    (compile .fixed .cp1252 (repairTags ⟨exStaleP ++ exStaleZ :: exStaleB, none⟩)).toOption
+      = some [⟨0, .str [80, 79, 73, 78, 84]⟩, ⟨0, .str [67, 73, 82, 67, 76, 69]⟩, ⟨20, .num⟩, ⟨30, .num⟩, ⟨40, .num⟩] := by
+  refine ⟨?_, ?_, ?_⟩ <;> rfl
+
+/-- non-vacuity of `single_fault_window`: LINE / CIRCLE / POINT where the CIRCLE's radius value is garbage that
+    `recover_float` still accepts resp. its (40, ..) line pair was dropped -/
+def exRawA : List RawTag := [⟨0, sLine⟩, ⟨8, [48]⟩, ⟨10, [49]⟩, ⟨20, [50]⟩]
+def exRawE1 : List RawTag := [⟨0, [67, 73, 82, 67, 76, 69]⟩, ⟨10, [49]⟩, ⟨20, [50]⟩, ⟨40, [51]⟩]
+def exRawE2 : List RawTag := [⟨0, [67, 73, 82, 67, 76, 69]⟩, ⟨10, [49]⟩, ⟨20, [50]⟩]
+def exRawZ : RawTag := ⟨0, [80, 79, 73, 78, 84]⟩
+def exRawB : List RawTag := [⟨8, [48]⟩, ⟨10, [53]⟩, ⟨20, [54]⟩, ⟨0, sEof⟩]
+#guard (compile .fixed .cp1252 (repairTags ⟨exRawA ++ exRawE1 ++ exRawZ :: exRawB, none⟩)).toOption.isSome
+#guard (compile .fixed .cp1252 (repairTags ⟨exRawA ++ exRawE2 ++ exRawZ :: exRawB, none⟩)).toOption.isSome
+#guard (EzdxfVerif.Lemmas.RecoverCausal.headPart (tagReorder none (exRawZ :: exRawB)).tail).all
+  (fun t => t.code != EzdxfVerif.Lemmas.RecoverCausal.staleExp (exRawA ++ exRawE1) && t.code != -1 &&
+            t.code != EzdxfVerif.Lemmas.RecoverCausal.staleExp (exRawA ++ exRawE2))
+
+/-! ## 12. A single fault at BYTE level, for faults that keep the pairing of code and value lines -/
+
+open EzdxfVerif.Lemmas.RecoverCausal in
+/-- bytes → raw tags: a file  chunk A ++ chunk E ++ rest  (chunks = complete code/value line pairs whose codes parse,
+    without an EOF tag) is loaded by `bytes_loader` as  tags(A) ++ tags(E) ++ tags(rest) -/
+theorem loader_region (psA psE : List (Bytes × Bytes)) (hA : ∀ p ∈ psA, PairOk p) (hE : ∀ p ∈ psE, PairOk p) (bB : Bytes) :
+    bytesLoader (splitLines (chunkBytes psA ++ chunkBytes psE ++ bB)) =
+      ⟨chunkTags psA ++ chunkTags psE ++ (bytesLoader (splitLines bB)).tags, (bytesLoader (splitLines bB)).err⟩ :=
+  EzdxfVerif.Lemmas.RecoverCausal.loader_region psA psE hA hE bB
+
+open EzdxfVerif.Lemmas.RecoverCausal in
+/-- **Single fault, bytes.**  Two files  A ++ E1 ++ rest  and  A ++ E2 ++ rest  (bytes) whose damaged regions E1, E2 are
+    ANY sequences of complete code/value line pairs with parsable group codes - this covers, for every tag position: the
+    value line replaced by arbitrary garbage without LF (`garb_value`), the code line replaced by garbage that still
+    parses (`garb_code`), the tag dropped (`drop_tag`), duplicated (`dup_tag`), swapped with its neighbour (`swap`),
+    tags inserted.  If the rest starts with a (0, ..) tag `z` and the stale-code condition of `single_fault_window`
+    holds, then the compiled tag streams of the two files (the input of `rebuild_sections`) agree on everything emitted for
+    A and on the complete compiled stream of the rest. -/
+theorem single_fault_bytes (cfg : Cfg) (enc : Enc) (psA psE1 psE2 : List (Bytes × Bytes)) (bB : Bytes)
+    (z : RawTag) (B : List RawTag) (T1 T2 : List CTag)
+    (hA : ∀ p ∈ psA, PairOk p) (hE1 : ∀ p ∈ psE1, PairOk p) (hE2 : ∀ p ∈ psE2, PairOk p)
+    (hB : (bytesLoader (splitLines bB)).tags = z :: B) (hz : z.code = 0)
+    (hs1 : ∀ t ∈ headPart (tagReorder none (z :: B)).tail,
+      t.code ≠ staleExp (chunkTags psA ++ chunkTags psE1) ∧ t.code ≠ -1)
+    (hs2 : ∀ t ∈ headPart (tagReorder none (z :: B)).tail,
+      t.code ≠ staleExp (chunkTags psA ++ chunkTags psE2) ∧ t.code ≠ -1)
+    (h1 : compile cfg enc (repairTags (bytesLoader (splitLines (chunkBytes psA ++ chunkBytes psE1 ++ bB)))) = .ok T1)
+    (h2 : compile cfg enc (repairTags (bytesLoader (splitLines (chunkBytes psA ++ chunkBytes psE2 ++ bB)))) = .ok T2) :
+    ∃ X S R1 R2 M1 M2, emitted cfg enc (chunkTags psA) = .ok X ∧
+      compile cfg enc (repairTags ⟨z :: B, (bytesLoader (splitLines bB)).err⟩) = .ok S ∧
+      T1 = X ++ R1 ∧ T2 = X ++ R2 ∧ T1 = M1 ++ S ∧ T2 = M2 ++ S := by
+  rw [EzdxfVerif.Lemmas.RecoverCausal.loader_region psA psE1 hA hE1 bB, hB] at h1
+  rw [EzdxfVerif.Lemmas.RecoverCausal.loader_region psA psE2 hA hE2 bB, hB] at h2
+  exact single_fault_window cfg enc (chunkTags psA) (chunkTags psE1) (chunkTags psE2) B z hz _ T1 T2 hs1 hs2 h1 h2
+
+/-- non-vacuity: the chunk  "  0\nLINE\n  8\n0\n"  and the same with the layer value replaced by garbage -/
+def exPairs : List (Bytes × Bytes) := [([32, 32, 48, 10], [76, 73, 78, 69, 10]), ([32, 32, 56, 10], [48, 10])]
+def exPairsBad : List (Bytes × Bytes) := [([32, 32, 48, 10], [76, 73, 78, 69, 10]), ([32, 32, 56, 10], [255, 254, 128, 10])]
+example : ∀ p ∈ exPairs ++ exPairsBad, EzdxfVerif.Lemmas.RecoverCausal.PairOk p := by
+  intro p hp
+  simp only [exPairs, exPairsBad, List.cons_append, List.nil_append, List.mem_cons, List.not_mem_nil, or_false] at hp
+  rcases hp with rfl | rfl | rfl | rfl
+  · exact ⟨⟨[32, 32, 48], rfl, by decide⟩, ⟨[76, 73, 78, 69], rfl, by decide⟩, 0, by rfl, by decide⟩
+  · exact ⟨⟨[32, 32, 56], rfl, by decide⟩, ⟨[48], rfl, by decide⟩, 8, by rfl, by decide⟩
+  · exact ⟨⟨[32, 32, 48], rfl, by decide⟩, ⟨[76, 73, 78, 69], rfl, by decide⟩, 0, by rfl, by decide⟩
+  · exact ⟨⟨[32, 32, 56], rfl, by decide⟩, ⟨[255, 254, 128], rfl, by decide⟩, 8, by rfl, by decide⟩
+#guard EzdxfVerif.Lemmas.RecoverCausal.chunkTags exPairsBad == [⟨0, sLine⟩, ⟨8, [255, 254, 128]⟩]
+
 /-! ## 7. Obligations on the generated tables -/
 
 /-- the group codes whose VALUE the front end inspects as text - 0 (structure), 2 (section / table names), 3 and 9
@@ -1195,5 +1739,10 @@ theorem inspected_codes_are_strings :
 theorem invalid_codes_are_floats :
     (isIntCode 5 = false ∧ isFloatCode 5 = false ∧ isIntCode 105 = false ∧ isFloatCode 105 = false) ∧
     invalidCodes.all (fun c => floatCodes.contains c && !pointCodes.contains c) = true := by decide
+
+/-- the handle codes the loading envelope reads (330 reactors, 360 extension dictionary) are string typed -/
+theorem handle_codes_are_strings :
+    ∀ c ∈ ([330, 360, 100] : List Int),
+      isIntCode c = false ∧ isFloatCode c = false ∧ isBinaryCode c = false ∧ isPointCode c = false := by decide
 
 end EzdxfVerif.Props.C07
